@@ -6,6 +6,7 @@ import (
 
 	"github.com/resgateio/resgate/server/codec"
 	"github.com/resgateio/resgate/server/reserr"
+	"github.com/resgateio/resgate/server/verifhook"
 )
 
 type subscriptionState byte
@@ -113,6 +114,11 @@ func (rs *ResourceSubscription) GetModel() (*Model, uint) {
 // Unsubscribe cancels the client subscriber's subscription
 func (rs *ResourceSubscription) Unsubscribe(sub Subscriber) {
 	rs.e.Enqueue(func() {
+		if verifhook.Enabled && sub != nil {
+			if _, ok := rs.subs[sub]; !ok {
+				verifhook.Site("release.twice", sub.CID(), rs.e.ResourceName)
+			}
+		}
 		if sub != nil {
 			delete(rs.subs, sub)
 		}
@@ -489,6 +495,7 @@ func (rs *ResourceSubscription) processResetGetResponse(payload []byte, err erro
 		if reserr.IsError(err, reserr.CodeNotFound) {
 			rs.handleEvent(&ResourceEvent{Event: "delete"})
 		} else {
+			verifhook.Site("reset.failed", "", rs.e.ResourceName)
 			rs.e.cache.Errorf("Subscription %s: Reset get error - %s", rs.e.ResourceName, err)
 		}
 		return
